@@ -170,6 +170,9 @@ def c12(t, md, steps, flags):
         res = st.get('res')
         k = op[0]
         if st.get('val') != 'ok':
+            if k == 'editassign' and str(res).startswith('err:'):
+                # a failed in-place assignment of an item is C18's business (known finding late_field_refusal)
+                break
             out.append('step %d %s: the bytes no longer validate: %s' % (i, op_s[:60], st.get('val')))
             break
         _, got = items_of(st['view'])
